@@ -28,6 +28,13 @@ def bump (last : SegPos) (lc : Int) (inLen outLen stateIndex : Nat) : SegPos :=
   if inLen == outLen then (if stateIndex < inLen - 1 then { l1 with gi := wadd l1.gi 1 } else l1)
   else { l1 with gi := wadd l1.gi 1 }
 
+/-- the same after an output matrix (subrule.rs:1426-1441): the cursor moves to the last copy of the resized run,
+    `last_pos.seg_index += max(old_len + lc - 1, 0)` -/
+def bumpRun (last : SegPos) (oldLen : Nat) (lc : Int) (inLen outLen stateIndex : Nat) : SegPos :=
+  let l1 : SegPos := { last with gi := wadd last.gi (max ((oldLen : Int) + lc - 1) 0).toNat }
+  if inLen == outLen then (if stateIndex < inLen - 1 then { l1 with gi := wadd l1.gi 1 } else l1)
+  else { l1 with gi := wadd l1.gi 1 }
+
 /-- replace a segment match by a whole syllable (subrule.rs:1334-1385, 1484-1527, 1603-1645) -/
 def segToSyll (st : SubSt) (sp : SegPos) (ins : Syll) (stateIndex outLen : Nat) : Res (SubSt × Bool) := do
   let old ← getSyll st.w sp.si "substitution: syllables.get_mut(sp.syll_index).unwrap()"
@@ -110,9 +117,10 @@ def substStep (r : SubRule) (inLen outLen : Nat) (stateIndex : Nat) (inState out
     match m with
     | .segment sp0 _ => do
       let sp ← adjust st.tlc sp0
+      let oldLen ← st.w.segLen sp
       let (w1, lc, b1) ← applySegModsVar st.w sp mods v st.b
       let tlc ← tlcAdd st.tlc sp.si lc
-      pure { w := w1, tlc := tlc, last := bump sp lc inLen outLen stateIndex, b := b1 }
+      pure { w := w1, tlc := tlc, last := bumpRun sp oldLen lc inLen outLen stateIndex, b := b1 }
     | .syllable sp _ => do
       let (w1, b1) ← applySyllModsVar st.w sp mods.suprs v st.b
       pure { st with w := w1, last := { si := sp, gi := 0 }, b := b1 }
@@ -284,22 +292,23 @@ def substExtraOut : List Item → Word → List Int → SegPos → Binds → Res
       | none => .err "UnknownVariable"
       | some (.seg seg) => do
         -- subrule.rs:1842-1866
-        let w1 ← (if w.inB pos then do
+        -- `tgt`: where the modifiers apply; `pos` itself unless the segment went to the end of the last syllable because `pos` is past the word
+        let (w1, tgt) ← (if w.inB pos then do
             let σ ← getSyll w pos.si "substitution"
-            pure (setSyll w pos.si { σ with segs := Syll.insertCopies σ.segs pos.gi seg 1 })
+            pure (setSyll w pos.si { σ with segs := Syll.insertCopies σ.segs pos.gi seg 1 }, pos)
           else match w.sylls[pos.si]? with
-            | some σ => pure (setSyll w pos.si { σ with segs := if pos.gi ≥ σ.segs.length then σ.segs ++ [seg] else Syll.insertCopies σ.segs pos.gi seg 1 })
+            | some σ => pure (setSyll w pos.si { σ with segs := if pos.gi ≥ σ.segs.length then σ.segs ++ [seg] else Syll.insertCopies σ.segs pos.gi seg 1 }, pos)
             | none =>
               match w.sylls.getLast? with
-              | some l => pure (setSyll w (w.sylls.length - 1) { l with segs := l.segs ++ [seg] })
+              | some l => pure (setSyll w (w.sylls.length - 1) { l with segs := l.segs ++ [seg] }, ({ si := w.sylls.length - 1, gi := l.segs.length } : SegPos))
               | none => .panic "substitution: syllables.last_mut().unwrap()")
         let (w2, pos2, b2) ← (match mods with
           | none => pure (w1, pos, b)
           | some m => do
-            let σ ← getSyll w1 pos.si "Word::apply_seg_mods: syllables[start_pos.syll_index]"
-            let (σ', al, lc) ← σ.applySegMods b.alphas m pos.gi
+            let σ ← getSyll w1 tgt.si "Word::apply_seg_mods: syllables[start_pos.syll_index]"
+            let (σ', al, lc) ← σ.applySegMods b.alphas m tgt.gi
             let p : SegPos := if lc > 0 then { pos with gi := wadd pos.gi lc.toNat } else if lc < 0 then { pos with gi := wsub pos.gi (-lc).toNat } else pos
-            pure (setSyll w1 pos.si σ', p, { b with alphas := al }))
+            pure (setSyll w1 tgt.si σ', p, { b with alphas := al }))
         substExtraOut rest w2 tlc (if w2.inB pos2 then pos2.increment w2 else pos2) b2
       | some (.syll σ) => do
         let ns ← (match mods with | some m => σ.applySyllMods b.alphas m.suprs | none => pure σ)
